@@ -140,6 +140,22 @@ type ProbeRec struct {
 	Frames   int    `json:"frames"` // carrier frames emitted because of the probe
 }
 
+// RegObs: what one operation of a registry history observed.
+type RegObs struct {
+	Op       int    `json:"op"`
+	Kind     string `json:"kind"`
+	Step     int    `json:"step"`
+	Returned int    `json:"returned"` // step at which the call returned (-1: still blocked at the end)
+	Err      string `json:"err,omitempty"`
+	Code     int    `json:"code"`
+	Bool     bool   `json:"bool,omitempty"`     // ready
+	Instance int    `json:"instance,omitempty"` // rpc: which reverse server instance (= tunnel) served it (-1 none)
+	All      []int  `json:"all,omitempty"`      // all: tunnel indexes listed
+	AllDone  int    `json:"all_done,omitempty"` // all: how many of the listed channels are already done
+	Tunnel   int    `json:"tunnel,omitempty"`
+	Parked   bool   `json:"parked,omitempty"` // a registration step was parked at a yield point when the op's settle ended
+}
+
 type YieldRec struct {
 	Point string `json:"point"`
 	Occ   int    `json:"occ"`
@@ -163,6 +179,7 @@ type Trace struct {
 	Labels      map[string]int `json:"labels,omitempty"`
 	Probe       *ProbeRec     `json:"probe,omitempty"`
 	Fcx         *FcxResult    `json:"fcx,omitempty"`
+	Reg         []*RegObs     `json:"reg,omitempty"`
 	Deadlock    string        `json:"deadlock,omitempty"` // bubble deadlock panic text on exit
 	Aborted     string        `json:"aborted,omitempty"`
 }
